@@ -31,6 +31,26 @@ fn main() {
         let v = serde_json::json!({"signature": "", "replay": {"engine": "duo", "scenario": scn, "plan": plan, "abort": "None"}});
         std::process::exit(duo::replay(&v));
     }
+    if args[0] == "sweep" {
+        // debugging aid: every solo driver under every monitor, all findings regardless of property
+        let depth: Option<usize> = args.get(1).and_then(|s| s.parse().ok());
+        let ctx = Ctx { prop: "SWEEP".into(), tier: Tier::Thorough, seed: 0, start: std::time::Instant::now(), verif_dir: std::path::PathBuf::from("/tmp/sweep") };
+        let _ = std::fs::create_dir_all("/tmp/sweep");
+        std::panic::set_hook(Box::new(|_| {}));
+        for mut d in props::solo_drivers::all_drivers(Tier::Quick) {
+            if let Some(x) = depth {
+                d.depth = x;
+            }
+            let mut out = Outcome::default();
+            let t0 = std::time::Instant::now();
+            props::solo_drivers::run_and_report(&ctx, &d, &mut out);
+            println!("== {} depth {} states {} ({:.1} s)", d.name, d.depth, out.parts.iter().map(|p| p.states).sum::<u64>(), t0.elapsed().as_secs_f64());
+            for v in &out.violations {
+                println!("   {}:{}  {}", v.property, v.signature, v.detail.chars().take(400).collect::<String>());
+            }
+        }
+        std::process::exit(0);
+    }
     if args[0] == "solo-debug" {
         let name = args.get(1).cloned().unwrap_or_default();
         let hist: Vec<u8> = serde_json::from_str(args.get(2).map(|s| s.as_str()).unwrap_or("[]")).expect("history json");
